@@ -196,7 +196,15 @@ func genAction(r *Rng, us *uuidSeq, ga *genAssets, f *genFlow, cfg engGenCfg) ma
 		}
 		return map[string]any{"uuid": u, "type": "enter_flow", "flow": ref, "terminal": r.Chance(25)}
 	case x < 60:
-		return map[string]any{"uuid": u, "type": "send_msg", "text": Pick(r, []string{"Hi @contact.name", "What color?", "@(1/0) oops", "You said @input.text", "@results.color.value"})}
+		text := Pick(r, []string{"Hi @contact.name", "What color?", "@(1/0) oops", "You said @input.text", "@results.color.value"})
+		if f.Type == "voice" && x%2 == 0 {
+			// what a voice flow says or plays goes to the call's URN (no further random draw: the stream of the other generators is kept)
+			if x%4 == 0 {
+				return map[string]any{"uuid": u, "type": "say_msg", "text": text}
+			}
+			return map[string]any{"uuid": u, "type": "play_audio", "audio_url": "http://uploads.example.com/rec.mp3?for=@contact.name"}
+		}
+		return map[string]any{"uuid": u, "type": "send_msg", "text": text}
 	case x < 75:
 		return map[string]any{"uuid": u, "type": "set_run_result", "name": Pick(r, []string{"Color", "Answer", "N"}), "value": Pick(r, []string{"red", "@input.text", "1", "@(1/0)"}), "category": "Cat"}
 	case x < 85:
